@@ -156,6 +156,19 @@ CLAIMS = {
             "Trusted: engines B/C, guard table in sa/refs/wire_semantics.py.",
             "abstract interpretation of the generator + guard extraction/dominance comparison with a reference table",
             "B+C", "DESIGN.md section 4, C16"),
+    "C18": ("other",
+            "Determinism: static rules on the generator (no nondeterministic source; every iteration over a set ends in an "
+            "order-insensitive sink or sorted(), flow-sensitively; accumulators cleared in finally; indexing never resolves "
+            "types) plus an abstract whole-program run of generate() over a 7-directory spec tree under four directory "
+            "enumeration orders and two consecutive runs on one instance: all succeed with identical output templates, "
+            "truncating sinks with explicit encoding, makedirs(exist_ok). Importability: every emitted class of the shape "
+            "lattice compiles, binds/imports every name it uses from where it is defined, spec text inside string "
+            "literals/docstrings is escaped; in the whole-program output every file compiles, every directory is a package, "
+            "every import resolves, every package __init__ star-imports its modules. Does NOT decide success beyond the "
+            "analysed shapes/sequences or undocumented directory layouts.",
+            "Trusted: engines A/C (evaluator's native models of os.path/pathlib/html), shape lattice.",
+            "abstract interpretation of the whole generator + AST rules on emitted files + static determinism rules",
+            "A+C", "DESIGN.md section 4, C18"),
     "C19": ("proof",
             "Same abstract interpretation of the generator; on every emitted class the S-immut rule: fields private and "
             "assigned only in __init__, getter-only properties (no setter/deleter/__setattr__), byte_size set once on the "
